@@ -5,7 +5,8 @@
 //  1. cache ingest: Cache.GnmiUpdate followed by UpdateMetadata / UpdateSize /
 //     Reset / Query (which re-read what was stored), directly and behind the
 //     collector's stamping logic with live subscribers attached;
-//  2. subscribe.Server.Subscribe over an in-memory stream;
+//  2. subscribe.Server.Subscribe over an in-memory stream (single sessions, and
+//     storms of concurrent ONCE / POLL requests that are rejected mid-walk);
 //  3. the real gnmi client receive path (client/gnmi.Client built with
 //     NewFromConn under client.BaseClient / client.CacheClient) over a bufconn
 //     gRPC server that plays generated response streams;
@@ -43,6 +44,7 @@ var modes = []modeSpec{
 	{"cache-mutation", 1300, 22000, modeCacheMutation},             // x 60-120 mutants
 	{"subscribe-structured", 1300, 20000, modeSubscribeStructured}, // x 8 sessions
 	{"subscribe-mutation", 1000, 15000, modeSubscribeMutation},     // x 12 sessions
+	{"once-rejected-storm", 120, 1200, modeOnceRejectedStorm},      // x ~1000 concurrent sessions
 	{"client-structured", 700, 9000, modeClientStructured(false)},  // x 8 streams
 	{"client-mutation", 500, 8000, modeClientMutation(false)},      // x 8 streams
 	{"cli-structured", 1100, 15000, modeClientStructured(true)},    // x 8 streams
@@ -83,6 +85,7 @@ func main() {
 			"(every message is used only after a proto marshal -> unmarshal round trip): a structured grammar biased to the hostile corners (empty / root paths, 'meta' alone and " +
 			"meta/<known leaf> with every value arm and none, element-less prefixes with atomic, both path encodings at once, wildcards in updates, deletes on empty targets, " +
 			"value-type changes on one leaf, unknown enum values, huge key maps, nil Update.Path, deprecated Update.value with every encoding, duplicates, empty names); " +
+			"for the Subscribe handler additionally storms of concurrent ONCE / POLL sessions whose request path.CompletePath rejects at a varying subscription index (GOMAXPROCS 2/4/8/all, 3-8 connections); " +
 			"state x message (each message against the cache states empty / populated / after Reset / type-confused meta leaf stored / latency windows configured / collector wiring with live subscribers); " +
 			"byte-level mutation (field duplication, drop, reorder, renumber, retype, scalar and length edits, bit flips, truncation, splice; mutants kept only if they unmarshal; per-trial corpus " +
 			"grows by mutants whose (entry point, outcome class, structural fingerprint) is new). Every call runs under recover(); a rejected notification is followed by a comparison of the whole cache content " +
